@@ -40,8 +40,10 @@ def main():
         print("CHECKER-BROKEN property=%s: %s" % (a.prop, e))
         return 2
     if st is not None:
-        print("  selftest: %d seeded variants detected, %d undetected, %d inapplicable; %d behaviour-preserving variants silent, %d false alarms"
-              % (st["detected"], len(st["undetected"]), st["inapplicable"], st["benign_silent"], len(st["benign_false_alarms"])))
+        print("  selftest: %d seeded variants detected, %d undetected, %d inapplicable; %d behaviour-preserving variants silent, %d false alarms; "
+              "%d/%d independently written changes (seeded/) detected"
+              % (st["detected"], len(st["undetected"]), st["inapplicable"], st["benign_silent"], len(st["benign_false_alarms"]),
+                 st.get("independent_seeds_detected", 0), st.get("independent_seeds", 0)))
         if st["undetected"] or st["benign_false_alarms"]:
             print("CHECKER-BROKEN property=%s: sensitivity self-test failed: undetected %s, false alarms %s" % (a.prop, st["undetected"], st["benign_false_alarms"]))
             return 2
@@ -63,9 +65,37 @@ def sensitivity(prop, repo):
     bs = [dict(v, properties=[prop]) for v in catalogue.BENIGN if prop in v["properties"]]
     with ThreadPoolExecutor(max_workers=4) as ex:
         bres = list(ex.map(lambda v: (v["name"], selftest.run_benign(v, base_repo=repo)[0]), bs))
+    # independently written breaking changes stored under seeded/: the check of the property each one breaks must report it
+    import glob
+    import shutil
+    import subprocess
+    import tempfile
+
+    def run_seed(d):
+        m = json.load(open(os.path.join(d, "meta.json")))
+        tmp = tempfile.mkdtemp(prefix="rubato_seed_")
+        try:
+            r2 = os.path.join(tmp, "repo")
+            shutil.copytree(repo, r2, ignore=shutil.ignore_patterns("target", ".git"))
+            p = subprocess.run(["patch", "-p1", "-s", "--no-backup-if-mismatch", "-i", os.path.join(d, "patch.diff")], cwd=r2, capture_output=True, text=True)
+            if p.returncode != 0:
+                return m["name"], "inapplicable"
+            env = dict(os.environ)
+            env["VERIF_EVIDENCE_DIR"] = os.path.join(tmp, "ev")
+            c = subprocess.run([os.path.join(harness.VERIF, "check"), prop, "--repo", r2], capture_output=True, text=True, env=env)
+            return m["name"], "detected" if c.returncode == 1 else "missed"
+        finally:
+            shutil.rmtree(tmp, ignore_errors=True)
+    sdirs = [d for d in sorted(glob.glob(os.path.join(harness.VERIF, "seeded", "*"))) if os.path.isfile(os.path.join(d, "meta.json"))
+             and json.load(open(os.path.join(d, "meta.json"))).get("property_broken") == prop]
+    with ThreadPoolExecutor(max_workers=4) as ex:
+        sres = list(ex.map(run_seed, sdirs))
     return {"variants": len(vs), "detected": sum(1 for _, r in res if r == "detected"), "inapplicable": sum(1 for _, r in res if r == "inapplicable"),
-            "undetected": [n for n, r in res if r in ("missed", "wrong-report")], "benign_silent": sum(1 for _, r in bres if r == "silent"),
-            "benign_false_alarms": [n for n, r in bres if r == "false-alarm"]}
+            "undetected": [n for n, r in res if r in ("missed", "wrong-report")] + ["seeded/" + n for n, r in sres if r == "missed"],
+            "benign_silent": sum(1 for _, r in bres if r == "silent"),
+            "benign_false_alarms": [n for n, r in bres if r == "false-alarm"],
+            "independent_seeds": len(sres), "independent_seeds_detected": sum(1 for _, r in sres if r == "detected"),
+            "independent_seeds_inapplicable": [n for n, r in sres if r == "inapplicable"]}
 
 
 if __name__ == "__main__":
